@@ -37,6 +37,12 @@ class SkipMap(SObj):
     def vc_getitem(self, it, idx, node):
         return SV('bool', self.f(idx.z))
 
+    def vc_getattr(self, it, name, node):
+        if name == 'update':
+            # the abstract skip map is an arbitrary function already: an update cannot make it more arbitrary
+            return SymMethod(lambda i, a, k, n: None, 'skipmap.update')
+        return NotImplemented
+
 
 def batch_contract(it, args, kwargs, node):
     """_batch(seq): consecutive chunks whose concatenation is seq (contract; the function itself is checked by
